@@ -318,3 +318,93 @@ func (s Signature) String(c *Case) string {
 	}
 	return fmt.Sprintf("func %s(%s) %s", s.Name, ps, res)
 }
+
+// CyclicTypes returns the types supplied by units that lie on a dependency cycle reachable
+// from the requested type (strongly connected components with more than one unit, or with a
+// self edge).
+func (r *Resolved) CyclicTypes() []TypeID {
+	c := r.Case
+	start, ok := r.Supplier[r.Inj.Want]
+	if !ok {
+		return nil
+	}
+	// reachable units
+	adj := map[*Unit][]*Unit{}
+	var order []*Unit
+	seen := map[*Unit]bool{}
+	var reach func(u *Unit)
+	reach = func(u *Unit) {
+		if seen[u] {
+			return
+		}
+		seen[u] = true
+		order = append(order, u)
+		for _, t := range c.Requires(u) {
+			if s, ok := r.Supplier[t]; ok {
+				adj[u] = append(adj[u], s.Unit)
+				reach(s.Unit)
+			}
+		}
+	}
+	reach(start.Unit)
+	// Tarjan
+	index := map[*Unit]int{}
+	low := map[*Unit]int{}
+	on := map[*Unit]bool{}
+	var stack []*Unit
+	n := 0
+	cyclic := map[*Unit]bool{}
+	var strong func(u *Unit)
+	strong = func(u *Unit) {
+		index[u], low[u] = n, n
+		n++
+		stack = append(stack, u)
+		on[u] = true
+		for _, w := range adj[u] {
+			if _, ok := index[w]; !ok {
+				strong(w)
+				if low[w] < low[u] {
+					low[u] = low[w]
+				}
+			} else if on[w] && index[w] < low[u] {
+				low[u] = index[w]
+			}
+		}
+		if low[u] == index[u] {
+			var comp []*Unit
+			for {
+				w := stack[len(stack)-1]
+				stack = stack[:len(stack)-1]
+				on[w] = false
+				comp = append(comp, w)
+				if w == u {
+					break
+				}
+			}
+			self := false
+			for _, w := range adj[u] {
+				if w == u {
+					self = true
+				}
+			}
+			if len(comp) > 1 || self {
+				for _, w := range comp {
+					cyclic[w] = true
+				}
+			}
+		}
+	}
+	for _, u := range order {
+		if _, ok := index[u]; !ok {
+			strong(u)
+		}
+	}
+	var out []TypeID
+	for t, s := range r.Supplier {
+		if cyclic[s.Unit] {
+			out = append(out, t)
+		}
+	}
+	sort.Slice(out, func(i, j int) bool { return out[i] < out[j] })
+	return out
+}
